@@ -118,7 +118,7 @@ def check(pid, tier, seed):
     for x, info in rej.items():
         nx = info.get("next") or {}
         verdict.violation("concrouter@%s(op=%s,id=%s)" % (nx.get("e"), nx.get("op"), nx.get("id")), {"matched": info["matched"], "next": nx},
-                          {"component": "concrouter", "cfg": cfgs[x], "events": info["events"]})
+                          {"component": "concrouter", "xid": x, "cfg": cfgs[x], "events": info["events"]})
     overlapping = 0
     for e in execs.values():
         depth = 0
@@ -140,3 +140,17 @@ def check(pid, tier, seed):
     rc = verdict.finish()
     common.write_evidence(pid, tier, seed, "model_checking", cov, ASSUMPTIONS, time.time() - t0, len(verdict.violations))
     return rc
+
+
+TRACE_SPEC = ("ConcRouterTraceMC.tla", "ConcRouterTrace.cfg")
+p_events = events
+
+
+def all_harnesses():
+    exe = harness()
+    return {exe.name: exe}
+
+
+def replay(pid, path):
+    import sys
+    return common.replay(pid, path, sys.modules[__name__])
